@@ -201,10 +201,10 @@ def check(t):
     except Exception as ex:
         return ("print-fails(%s)" % type(ex).__name__, "str() raised %s" % ex), None
     try:
-        with kernel.time_limit(20):
+        with kernel.time_limit(120):
             p = parse(s)
     except kernel.Budget:
-        return ("budget", "parse(%r) did not return within 20 s" % s), s
+        return ("budget", "parse(%r) did not return within 120 s" % s), s
     except Exception as ex:
         return ("parse-fails(%s)" % type(ex).__name__, "parse(%r): %s: %s" % (s, type(ex).__name__, str(ex)[:200])), s
     try:
